@@ -14,7 +14,12 @@ SCHEMA_PRODUCTIONS = [(stmt.TB, "prepare_table_create_statement", "table_create"
                       (stmt.TB, "prepare_table_drop_statement", "table_drop"), (stmt.TB, "prepare_table_rename_statement", "table_rename"),
                       (stmt.TB, "prepare_table_truncate_statement", "table_truncate"), (stmt.IB, "prepare_index_create_statement", "index_create"),
                       (stmt.IB, "prepare_index_drop_statement", "index_drop"), (stmt.FKB, "prepare_foreign_key_create_statement", "fk_create"),
-                      (stmt.FKB, "prepare_foreign_key_drop_statement", "fk_drop")]
+                      (stmt.FKB, "prepare_foreign_key_drop_statement", "fk_drop"),
+                      ("crate::extension::postgres::types::TypeBuilder", "prepare_type_create_statement", "type_create"),
+                      ("crate::extension::postgres::types::TypeBuilder", "prepare_type_drop_statement", "type_drop"),
+                      ("crate::extension::postgres::types::TypeBuilder", "prepare_type_alter_statement", "type_alter"),
+                      ("crate::extension::postgres::extension::ExtensionBuilder", "prepare_extension_create_statement", "extension_create"),
+                      ("crate::extension::postgres::extension::ExtensionBuilder", "prepare_extension_drop_statement", "extension_drop")]
 
 
 def run_structure(run, pid, kind, dialects, cfgs):
